@@ -14,7 +14,6 @@ use std::collections::HashSet;
 
 use anyhow::{anyhow, Result};
 use apint::ApInt;
-use itertools::Itertools;
 
 use crate::{intermediate_representation::*, utils::log::LogMessage};
 
@@ -39,7 +38,10 @@ fn substitute(
                     if ApInt::try_to_i64(&ApInt::into_negate(bitmask.clone())).unwrap()
                         != expected_alignment
                     {
+                        // The stack pointer is only known to be aligned to the expected alignment,
+                        // so the result of other bitmasks is not known.
                         log.push(LogMessage::new_info("Unexpected alignment").location(tid));
+                        return log;
                     }
                     let offset =
                         *journaled_sp - (*journaled_sp & bitmask.clone().try_to_i64().unwrap());
@@ -198,16 +200,10 @@ pub fn substitute_and_on_stackpointer(project: &mut Project) -> Option<Vec<LogMe
                                         def.tid.clone(),
                                         &project.stack_pointer_register,
                                     );
+                                    // A log message means that the expression was not substituted.
+                                    let lost_track_of_sp = !msg.is_empty();
                                     log.append(&mut msg);
-                                    if !log
-                                        .iter()
-                                        .filter(|x| {
-                                            x.text.contains("Unsubstitutable Operation on SP")
-                                        })
-                                        .collect_vec()
-                                        .is_empty()
-                                    {
-                                        // Lost track of SP
+                                    if lost_track_of_sp {
                                         continue 'sub_loop;
                                     }
                                 }
